@@ -110,15 +110,21 @@ SameObl(name, a, b, k) ==
 (* observes them.  how:                                                    *)
 (*   build    constructed from props, then steps (add(component i, q))     *)
 (*   sum      of[1] + of[2]                                                *)
+(*   sumc     of[1] + a single component object (an Element for a          *)
+(*            Substance, a Substance for a Material) for component comp    *)
+(*            with proportion q: the sum of different classes              *)
 (*   perturb  the object of[1] after the caller converted every quantity   *)
 (*            it reports, in place, to another unit                        *)
 (*   again    the object of[1] observed once more (operands of a sum)      *)
 (* eff are the proportions the object then has (terms): what the           *)
-(* obligations speak about.                                                *)
+(* obligations speak about; the object has the first Len(eff) components.  *)
+(* form: "dict" | "text" (an expression string, proportions in any number  *)
+(* spelling) | "" (the harness alternates).                                *)
 (***************************************************************************)
 Other(mode) == IF mode = "MASS_FRACTION" THEN "NUMBER_FRACTION" ELSE "MASS_FRACTION"
 Obj(name, how, cls, mode, props, steps, of, eff) ==
-  [name |-> name, how |-> how, cls |-> cls, mode |-> mode, props |-> props, steps |-> steps, of |-> of, eff |-> eff]
+  [name |-> name, how |-> how, cls |-> cls, mode |-> mode, props |-> props, steps |-> steps, of |-> of, eff |-> eff,
+   form |-> "", comp |-> 0, q |-> Q(0, 1)]
 Objects(sc, k) ==
   LET pA == [i \in 1..k |-> Inp("A.p." \o IStr(i))]
       pB == [i \in 1..k |-> Inp("B.p." \o IStr(i))]
@@ -141,6 +147,17 @@ Objects(sc, k) ==
                 Obj("B2", "again", sc.cls, sc.mode, <<>>, <<>>, <<"B">>, pB) >>
         [] sc.kind = "perturbed" ->
              << A, Obj("P", "perturb", sc.cls, sc.mode, <<>>, <<>>, <<"A">>, pA) >>
+        [] sc.kind = "sum_component" ->          \* composite + one component object, existing (j = 1) or new (j = 0)
+             IF sc.j = 1
+             THEN << A, [Obj("R", "sumc", sc.cls, sc.mode, <<>>, <<>>, <<"A">>,
+                             [i \in 1..k |-> IF i = 1 THEN Add(pA[i], Inp("A.q")) ELSE pA[i]]) EXCEPT !.comp = 1, !.q = Inp("A.q")],
+                     Obj("A2", "again", sc.cls, sc.mode, <<>>, <<>>, <<"A">>, pA) >>
+             ELSE LET pS == SubSeq(pA, 1, k - 1)
+                  IN  << Obj("A", "build", sc.cls, sc.mode, pS, <<>>, <<>>, pS),
+                         [Obj("R", "sumc", sc.cls, sc.mode, <<>>, <<>>, <<"A">>, pA) EXCEPT !.comp = k, !.q = pA[k]],
+                         Obj("A2", "again", sc.cls, sc.mode, <<>>, <<>>, <<"A">>, pS) >>
+        [] sc.kind = "forms" ->                  \* the same material given as dict and as expression text
+             << [A EXCEPT !.form = "dict"], [Obj("B", "build", sc.cls, sc.mode, pA, <<>>, <<>>, pA) EXCEPT !.form = "text"] >>
 Obligations(sc, k) ==
   LET objs == Objects(sc, k)
       RECURSIVE Each(_)
@@ -150,6 +167,8 @@ Obligations(sc, k) ==
              [] sc.kind = "dual"        -> SameObl("duality", "A", "B", k)
              [] sc.kind = "sum_overlap" -> SameObl("operand unchanged", "A", "A2", k) \o SameObl("operand unchanged", "B", "B2", k)
              [] sc.kind = "perturbed"   -> SameObl("unit of a reported quantity changed", "A", "P", k)
+             [] sc.kind = "sum_component" -> SameObl("operand unchanged", "A", "A2", Len(objs[1].eff))
+             [] sc.kind = "forms"       -> SameObl("text form = dict form", "A", "B", k)
              [] OTHER -> <<>>)
 
 \* environment of a whole scenario; F(mode, ps, pn, ms, pert) yields the fractions (ideal or machine)
@@ -165,8 +184,10 @@ ScEnv(sc, ps, ms, F(_, _, _, _, _)) ==
                  \* the proportions in force when the norms were last derived, if add() of an existing
                  \* component did not re-derive them: before the step / after the first operand's components
                  pn  == IF o.how = "build" /\ o.steps # <<>> THEN EvalSeq(o.props, env)
-                        ELSE IF o.how = "sum" THEN EvalSeq(objs[1].eff, env) ELSE eff
-             IN  Go(i + 1, env @@ ObjEnv(o.name, ms, F(o.mode, eff, pn, ms, o.how = "perturb")))
+                        ELSE IF o.how = "sum" \/ (o.how = "sumc" /\ Len(o.eff) = Len(objs[1].eff)) THEN EvalSeq(objs[1].eff, env)
+                        ELSE eff
+                 mo  == SubSeq(ms, 1, Len(eff))
+             IN  Go(i + 1, env @@ ObjEnv(o.name, mo, F(o.mode, eff, pn, mo, o.how = "perturb")))
   IN  Go(1, inp)
 
 ---------------------------------------------------------------------------
@@ -180,12 +201,14 @@ Scenarios ==
       \cup {S("add_existing", c, <<1, 1>>, j) : c \in cm, j \in {1, 2}}      \* the first / the last component
       \cup {S("sum_overlap", c, <<1, 1>>, 0) : c \in cm}
       \cup {S("perturbed", c, <<1, 1>>, 0) : c \in cm}
+      \cup {S("sum_component", c, <<1, 1>>, j) : c \in cm, j \in {0, 1}}
+      \cup {S("forms", <<"material", md>>, <<1, 1>>, 0) : md \in Modes}
 
 VARIABLES comps, sc
 Init == comps = <<>> /\ sc = NoSc
 Next == /\ sc = NoSc
         /\ \/ Len(comps) < MaxK /\ \E p \in PVals, m \in MVals : comps' = Append(comps, [p |-> p, m |-> m]) /\ UNCHANGED sc
-           \/ Len(comps) >= 1 /\ \E s \in Scenarios : (s.j = 2 => Len(comps) >= 2) /\ sc' = s /\ UNCHANGED comps
+           \/ Len(comps) >= 1 /\ \E s \in Scenarios : ((s.j = 2 \/ (s.kind = "sum_component" /\ s.j = 0)) => Len(comps) >= 2) /\ sc' = s /\ UNCHANGED comps
 
 Ps == [i \in 1..Len(comps) |-> QI(comps[i].p)]
 Ms == [i \in 1..Len(comps) |-> QI(comps[i].m)]
